@@ -41,9 +41,27 @@ def run_c01(ctx):
             run_olh(ctx, 'shell', twin_args(ctx, ['-histories', '80', '-blocks', '14'], ['-histories', '800', '-blocks', '24']))]
 
 
+def exit_is_a_hit(r, args):
+    """the gas sweep runs the application in-process: logger.Fatal (os.Exit(1)) under a gas limit
+    takes the engine down with it. That is the node exiting, not a failure of the machinery."""
+    if 'error' in r and ' exited 1:' in r['error']:
+        sig = 'node-exited-during-gas-sweep'
+        return {'engine': 'gassweep', 'evaluations': 1, 'distinct_nontrivial': 0, 'rule': 'the engine process ended with exit status 1 (logger.Fatal inside the application) before it could write its result',
+                'monitor_hits': [{'signature': sig, 'case': -1, 'detail': 'olh gassweep ' + ' '.join(args) + ' exited with status 1: the application called os.Exit under a finite block gas limit; re-run the command and read app.log in the scratch directory for the Fatal line', 'ops': []}],
+                'monitor_hit_count': {sig: 1}, 'distribution': {}, 'counters': {}, 'samples': []}
+    return r
+
+
 def gassweep(ctx, monitors):
     # failure points made by a finite block gas limit, enumerated exactly (harness/apph/gassweep.go)
-    return run_olh(ctx, 'gassweep', twin_args(ctx, ['-cases', '80', '-targets', '6'], ['-cases', '2500', '-targets', '8']) + ['-monitors', monitors])
+    args = twin_args(ctx, ['-cases', '80', '-targets', '6'], ['-cases', '2500', '-targets', '8']) + ['-monitors', monitors]
+    return exit_is_a_hit(run_olh(ctx, 'gassweep', args), args)
+
+
+def beginsweep(ctx):
+    # what BeginBlock does (matured undelegations, block rewards, votes) must not depend on the block gas limit
+    args = twin_args(ctx, ['-cases', '40', '-targets', '0'], ['-cases', '800', '-targets', '0']) + ['-monitors', 'begin-block-effect-depends-on-gas-limit,gas-limit-below-begin-block']
+    return exit_is_a_hit(run_olh(ctx, 'gassweep', args), args)
 
 
 def run_c02(ctx):
@@ -56,7 +74,7 @@ def run_ledger(ctx):
 
 
 def run_c18(ctx):
-    return [gassweep(ctx, 'gas-window-closes-application,app-closed-by-panic'),
+    return [gassweep(ctx, 'gas-window-closes-application,gas-limit-below-begin-block-closes-application,app-closed-by-panic'),
             run_olh(ctx, 'nocrash', twin_args(ctx, ['-seeds', '12', '-fuzz', '150', '-parallel', '12'], ['-seeds', '400', '-fuzz', '600', '-parallel', '14']))]
 
 
@@ -110,13 +128,13 @@ def run_c20(ctx):
 def run_c12(ctx):
     corpus = os.path.join(ctx['root'], 'corpus', 'C12')
     if ctx['tier'] == 'quick':
-        return [run_olh(ctx, 'deleg', ['-histories', '500', '-blocks', '20', '-maxtxs', '8', '-iter', '3000', '-corpus', corpus])]
+        return [beginsweep(ctx), run_olh(ctx, 'deleg', ['-histories', '500', '-blocks', '20', '-maxtxs', '8', '-iter', '3000', '-corpus', corpus])]
     from concurrent.futures import ThreadPoolExecutor
     def one(i):   # several derived seeds, one process each
         c = dict(ctx, seed=ctx['seed'] * 7919 + i)
         return run_olh(c, 'deleg', ['-histories', '2500', '-blocks', '30', '-maxtxs', '10', '-iter', '30000', '-corpus', corpus], name='deleg%d' % i)
     with ThreadPoolExecutor(max_workers=4) as ex:
-        return list(ex.map(one, range(4)))
+        return [beginsweep(ctx)] + list(ex.map(one, range(4)))
 
 
 def run_c15(ctx):
@@ -137,7 +155,7 @@ def run_c11(ctx):
 
 
 def run_c13(ctx):
-    return [run_olh(ctx, 'rewards', twin_args(ctx, ['-histories', '200', '-blocks', '30', '-maxtxs', '4'], ['-histories', '2000', '-blocks', '40', '-maxtxs', '5']))]
+    return [beginsweep(ctx), run_olh(ctx, 'rewards', twin_args(ctx, ['-histories', '200', '-blocks', '30', '-maxtxs', '4'], ['-histories', '2000', '-blocks', '40', '-maxtxs', '5']))]
 
 
 def run_c17(ctx):
